@@ -232,6 +232,29 @@ class PathExplorer:
                             facts = facts | {("d", ("call", bb, ()), v)}
             if c.decl == "std::iter::Iterator::next":
                 from engine import PASS_THROUGH
+                el = self._flatten_elems(c.args[0])
+                if el and t["target"] is not None:
+                    # `for x in [a, b].into_iter().flatten()` over Results / Options: the iterator yields exactly the Ok / Some
+                    # elements.  Its first next() is None iff every element is Err / None.
+                    Kf = ("flatten", c.bb if False else tuple(k_ for (k_, _y) in el))
+                    first = Kf not in nexted
+                    known = {}
+                    for f_ in facts:
+                        if f_[0] == "d":
+                            known[f_[1]] = f_[2]
+                    yields = [known.get(k_) == y_ for (k_, y_) in el if k_ in known]
+                    all_dry = len(yields) == len(el) and not any(yields)
+                    some_y = any(yields)
+                    ck = ("call", bb, ())
+                    out_ = []
+                    if not (first and all_dry):
+                        out_.append((t["target"], facts | {("d", ck, 1)}, flags, nexted | {Kf}, ret))
+                    if not (first and some_y):
+                        nf_ = facts | {("d", ck, 0)}
+                        if first:
+                            nf_ = nf_ | {("d", k_, 1 - y_) for (k_, y_) in el if k_ not in known}
+                        out_.append((t["target"], nf_, flags, nexted | {Kf}, ret))
+                    return out_
                 K = canon(body, c.args[0], PASS_THROUGH)
                 if K is not None:
                     if ("empty", K, False) in facts and K not in nexted:
@@ -333,6 +356,41 @@ class PathExplorer:
                     out.append((s, facts, flags, nexted, ret))
             return out
         return [(s, facts, flags, nexted, ret) for s in body.succ(bb)]
+
+    def _flatten_elems(self, op):
+        """[(canonical key, discriminant value that yields)] of the elements of `[a, b, ..].into_iter().flatten()` when `op` is
+        (a borrow of) such an iterator over Results / Options, else None."""
+        import re
+        from engine import PASS_THROUGH
+        body = self.body
+        cur = [op]
+        saw_flatten = False
+        for _ in range(6):
+            nxt = []
+            for o in cur:
+                for lf in body.origins(o, passthrough=PASS_THROUGH):
+                    if lf["kind"] == "call" and re.search(r"(Iterator::flatten|IntoIterator::into_iter|Iterator::by_ref)$", lf["call"].decl) and lf["call"].args:
+                        saw_flatten = saw_flatten or lf["call"].decl.endswith("Iterator::flatten")
+                        nxt.append(lf["call"].args[0])
+                    elif lf["kind"] == "agg" and lf["stmt"]["rv"].get("ak") == "array" and saw_flatten:
+                        out = []
+                        for eo in lf["stmt"]["rv"]["ops"]:
+                            pl = op_place(eo)
+                            if pl is None:
+                                return None
+                            ty = body.local_ty(pl["l"]).lstrip("&")
+                            y = 0 if ty.startswith("std::result::Result<") else 1 if ty.startswith("std::option::Option<") else None
+                            k_ = canon(body, eo)
+                            if y is None or k_ is None:
+                                return None
+                            out.append((k_, y))
+                        return out or None
+                    else:
+                        return None
+            if not nxt:
+                return None
+            cur = nxt
+        return None
 
     def _is_unreachable(self, bb):
         return self.body.term(bb)["t"] == "unreachable" and not self.body.stmts(bb)
